@@ -232,6 +232,13 @@ def run_async(desc, tier, seed, res):
             bad[-1] ^= 0x5A
             sim.dev.send_whole(0.0, bytes(bad))
             res.hit("damaged_packet_injected")
+            if driver == "sci":
+                # ... and every error report the gateway can send on its own (codes of the SCI ERROR packet): each is a
+                # well-formed packet that denotes a gateway condition, none of them is an answer to anything
+                for code in (1, 2, 3, 4, 5):
+                    sim.dev.send_whole(0.01 * code, W.sci_frame(sim.dev.dev_id | 7, 0, 0, code))
+                    res.hit("gateway_error_reports_injected")
+                await asyncio.sleep(0.1)
             await asyncio.sleep(0.2)
         if desc["mode"] == "seq":
             # refusals first: a refused command must leave nothing behind that a later send (hundreds later) trips over
@@ -256,6 +263,11 @@ def run_async(desc, tier, seed, res):
     try:
         if simlib.detached(out):
             res.inconclusive.append('harness detached: ' + str(out))
+            return
+        if getattr(sim.loop, "errors", None):
+            # an exception out of the driver's packet handler (a loop callback) on packets the gateway's protocol defines
+            res.violation(f"C18/{driver}/packet-handler-raised", f"a well-formed gateway packet made the driver's receive path raise: "
+                          f"{sim.loop.errors[0]}", {"driver": driver})
             return
         if not stalled and isinstance(out, (asyncio.TimeoutError, TimeoutError)) and sim.attached() and not marks:
             # the driver opened the (model of the) gateway, the gateway answered the connection handshake the way its protocol
